@@ -61,6 +61,10 @@ CHECKS = {
          "TLC checks that binary search over the transcribed table finds exactly the 52 keywords of the Rust Reference (2015-2021 strict + reserved + union) for every needle of the pool, and shows SearchCorrect violated when two entries are swapped. The finite product of 66 names (52 keywords + 14 naming styles) x {response field, alias, variable, input-object field, enum value} x {none, rust} is generated, compiled and exercised: the JSON key / string must be exactly the GraphQL name. A failing pack is bisected to the offending name.",
          "Trusted: TLC, the byte order of the pool written in the spec, rustc + serde. Names that collide after the generator's own renaming are kept in different modules.",
          "DESIGN.md §5 C11", "model_checking"),
+ "C10": ("TLA+ reference of enum wire behaviour (Enums.tla: Deser / Ser, admissible definitions) enumerated exhaustively by TLC over enum definitions x normalization with the classification of every test string; replayed through generated enums compiled with rustc at three places (response field, variable, input-object field)",
+         "Exhaustive over enum definitions of 1..2 (3) values from a 14-name pool (case twins, underscores, digits, Rust keywords, `Other_`) x {none, rust} x 25 strings (every pool value, near-misses, empty, non-ASCII, very long, `Other`): each schema value must deserialise to a non-Other variant of its own and back to exactly its name, every other string to Other(s) with Ser(Deser(s)) = s; distinct values give distinct variants; non-strings are rejected.",
+         "Trusted: TLC, the Camel table for the pool, rustc + serde; variant identity is read from Debug output.",
+         "DESIGN.md §5 C10", "model_checking"),
 }
 
 
